@@ -4139,7 +4139,13 @@ impl PrimitiveValue {
     /// ```
     pub fn truncate(&mut self, limit: usize) {
         match self {
-            PrimitiveValue::Empty | PrimitiveValue::Str(_) => { /* no-op */ }
+            PrimitiveValue::Empty => { /* no-op */ }
+            PrimitiveValue::Str(_) => {
+                // a single string counts as one value item
+                if limit == 0 {
+                    *self = PrimitiveValue::Empty;
+                }
+            }
             PrimitiveValue::Strs(l) => l.truncate(limit),
             PrimitiveValue::Tags(l) => l.truncate(limit),
             PrimitiveValue::U8(l) => l.truncate(limit),
